@@ -5,7 +5,7 @@
 
 namespace c05 {
 
-enum St : uint8_t { S_SPAWN, S_PAUSE, S_RESOLVE_DISCARD, S_RESOLVE_AWAIT, S_RESOLVE_KEEP, S_AWAIT, S_LOCK, S_UNLOCK_DISCARD, S_UNLOCK_AWAIT, S_PUSH, S_POP, S_START_NESTED, S_NESTED_CALL, S_PARK, S_UNPARK, S_POOL_AWAIT, S_POOL_STOP, S_COUNT };
+enum St : uint8_t { S_SPAWN, S_PAUSE, S_RESOLVE_DISCARD, S_RESOLVE_AWAIT, S_RESOLVE_KEEP, S_AWAIT, S_LOCK, S_UNLOCK_DISCARD, S_UNLOCK_AWAIT, S_PUSH, S_POP, S_START_NESTED, S_NESTED_CALL, S_PARK, S_UNPARK, S_POOL_AWAIT, S_POOL_STOP, S_GEN_STEP, S_COUNT };
 struct Step { uint8_t kind, arg; uint8_t unwinding = 0; };   // unwinding (operations from ordinary code): performed by a destructor while an exception propagates
 constexpr int NF = 4, MAXC = 8;
 struct Prog { std::vector<std::vector<Step>> co; std::vector<Step> main_ops; };
@@ -35,7 +35,8 @@ static const char *sn[] = {"spawn+detach", "pause", "resolve(discard)", "co_awai
                            "coro_queue::install_queue_and_call (explicit nested activation: flushes the queue before it returns)",
                            "park (suspend on a hand-written awaiter that keeps the handle)", "coro_queue::resume(handle of the longest parked coroutine)",
                            "co_await thread_pool (its only worker is occupied: the coroutine waits in the pool's queue until the pool is stopped, which cancels it)",
-                           "thread_pool::stop() (every coroutine waiting in the pool's queue is cancelled, i.e. made ready)"};
+                           "thread_pool::stop() (every coroutine waiting in the pool's queue is cancelled, i.e. made ready)",
+                           "synchronous step of a generator (next()/value() or range-for): an ordinary nested call, nothing that is queued may run inside it"};
 inline std::string describe(const Prog &p) {
     hz::Desc d; d << (unsigned)p.co.size() << " coroutines;";
     for (size_t i = 0; i < p.co.size(); i++) { d << " C" << (unsigned)i << ":"; for (auto &s : p.co[i]) { d << " " << sn[s.kind]; if (s.kind >= S_RESOLVE_DISCARD && s.kind <= S_AWAIT) d << "#" << (unsigned)s.arg; } d << ";"; }
@@ -89,8 +90,10 @@ struct Model {
     int direct_awaiter = -1;
 };
 
+inline cocls::generator<int> c05_counting_gen() { for (int i = 1;; i++) co_yield i; }
 struct World {
     const Prog *p; Model m;
+    cocls::generator<int> gen = c05_counting_gen(); int gen_expect = 1;
     std::unique_ptr<cocls::future<int>> fut[NF]; cocls::promise<int> prom[NF];
     cocls::mutex mx; cocls::queue<int> q;
     std::unique_ptr<cocls::thread_pool> pool;      // one worker, occupied by a job that lasts until the pool is stopped
@@ -219,6 +222,12 @@ inline cocls::async<void> script(World *w, int id) {
             } break;
             case S_PUSH: m.add_batch(w->model_push()); w->q.push(5); break;
             case S_PARK: w->model_suspend(); co_await ParkAw{w, id}; break;
+            case S_GEN_STEP: {
+                // a synchronous generator used by a running coroutine is stepped like a function call
+                if (s.arg & 1) { bool more = (bool)w->gen.next(); HZ_CHECK(more && w->gen.value() == w->gen_expect, "synchronous generator step returned %d, expected %d", more ? w->gen.value() : -1, w->gen_expect); w->gen_expect++; }
+                else { int n = 0; for (int v : w->gen) { HZ_CHECK(v == w->gen_expect, "range-for over the generator delivered %d, expected %d", v, w->gen_expect); w->gen_expect++; if (++n == 2) break; } }
+                w->on_run(id, "after a synchronous generator step");
+            } break;
             case S_POOL_AWAIT: {
                 cocls::thread_pool &pool = w->the_pool();
                 // a stopped pool cancels at once: the coroutine is made ready (queued) from inside its own suspension
@@ -336,7 +345,7 @@ namespace hz {
 static const Info I = {
     "C05", 1, 130, 100000, false, true,
     "stateful byte-decoded programs (rapidcheck), single thread: 1..8 scripted coroutines with up to 6 steps each over {spawn+detach child, pause, resolve promise j with the suspend point discarded / co_awaited / kept and released later, "
-    "await future j, mutex lock, unlock discarded / co_awaited, queue push, queue pop, start() of a child that runs nested (finishing at once, or suspending on a private future: control returns to the parent, the child continues from the queue), explicit nested activation, parking on a hand-written awaiter and coro_queue::resume() of a parked handle, co_await on a thread pool whose only worker is occupied and thread_pool::stop() (which cancels, i.e. readies, the coroutines waiting in the pool's queue)}, driven by 1..4 operations from ordinary code (spawn, resolve, push - optionally performed by a destructor during stack unwinding) and then settled until every coroutine finished. Oracle = online comparison with a reference "
+    "await future j, mutex lock, unlock discarded / co_awaited, queue push, queue pop, start() of a child that runs nested (finishing at once, or suspending on a private future: control returns to the parent, the child continues from the queue), explicit nested activation, parking on a hand-written awaiter and coro_queue::resume() of a parked handle, synchronous steps of a generator, co_await on a thread pool whose only worker is occupied and thread_pool::stop() (which cancels, i.e. readies, the coroutines waiting in the pool's queue)}, driven by 1..4 operations from ordinary code (spawn, resolve, push - optionally performed by a destructor during stack unwinding) and then settled until every coroutine finished. Oracle = online comparison with a reference "
     "model of the ready queue (FIFO of batches; the order inside the batch readied by ONE operation is not asserted): a coroutine may only gain control when the model says the running one suspended/finished and it is in the front batch "
     "(run-to-suspension, FIFO, pause = strict round-robin), co_await on a suspend point transfers to one of its coroutines, queues the others and re-queues the awaiting one last, nobody runs between resolving and releasing a kept suspend point, "
     "and every return to ordinary code finds the model queue empty and coro_queue inactive (full drain); allocation balance 0. Non-trivial = >=3 coroutines and >=1 coroutine readied through a discarded suspend point; distinct = hash(decoded program).",
